@@ -1443,15 +1443,17 @@ fn run_iter(cache: AnyCache, ty: Ty, id: &str, cached_only: bool) -> Result<V, B
             let h = cache.load::<$dir>(id)?;
             let g = h.read();
             if cached_only {
-                let v: Vec<V> = g
+                let mut v: Vec<V> = g
                     .iter_cached(cache)
                     .map(|h: &assets_manager::Handle<$elem>| {
                         V::Sub(vec![V::Ids(vec![h.id().to_string()]), describe_handle(h)])
                     })
                     .collect();
+                // the iteration order of a recursive listing is unspecified
+                v.sort();
                 V::Sub(v)
             } else {
-                let v: Vec<V> = g
+                let mut v: Vec<V> = g
                     .iter(cache)
                     .map(|r: Result<&assets_manager::Handle<$elem>, assets_manager::Error>| {
                         V::Res(match r {
@@ -1460,6 +1462,7 @@ fn run_iter(cache: AnyCache, ty: Ty, id: &str, cached_only: bool) -> Result<V, B
                         })
                     })
                     .collect();
+                v.sort();
                 V::Sub(v)
             }
         }};
